@@ -115,3 +115,63 @@ Example declarator_example :
   p_declarator 5 (dtor_toks d ++ [tok_of LPAREN "("]) = Ok (Some d, [tok_of LPAREN "("]) /\
   render_dtor false d = cp " * const * volatile ( * fp)".
 Proof. split; vm_compute; reflexivity. Qed.
+
+(* ---- the specifier phase: built-in type words, cv-qualifiers and storage classes in any order ---- *)
+Definition is_spec_tok (t : tok) : bool :=
+  match tk t with TYPE_SPECIFIER | TYPE_QUALIFIER | STORAGE_CLASS => true | _ => false end.
+
+(* what a run of specifier tokens adds to the state, independent of their relative order for the flags *)
+Definition spec_step (s : spec_state) (t : tok) : spec_state :=
+  match tk t with
+  | TYPE_SPECIFIER => {| ss_spec := ss_spec s ++ [tv t]; ss_storage := ss_storage s; ss_const := ss_const s; ss_volatile := ss_volatile s;
+                         ss_tm := ss_tm s; ss_targs := ss_targs s; ss_ctor := ss_ctor s; ss_dtor := ss_dtor s |}
+  | TYPE_QUALIFIER =>
+      if ueqb (tv t) (cp "const")
+      then {| ss_spec := ss_spec s; ss_storage := ss_storage s; ss_const := true; ss_volatile := ss_volatile s;
+              ss_tm := ss_tm s; ss_targs := ss_targs s; ss_ctor := ss_ctor s; ss_dtor := ss_dtor s |}
+      else {| ss_spec := ss_spec s; ss_storage := ss_storage s; ss_const := ss_const s; ss_volatile := true;
+              ss_tm := ss_tm s; ss_targs := ss_targs s; ss_ctor := ss_ctor s; ss_dtor := ss_dtor s |}
+  | STORAGE_CLASS => {| ss_spec := ss_spec s; ss_storage := ss_storage s ++ [tv t]; ss_const := ss_const s; ss_volatile := ss_volatile s;
+                        ss_tm := ss_tm s; ss_targs := ss_targs s; ss_ctor := ss_ctor s; ss_dtor := ss_dtor s |}
+  | _ => s
+  end.
+
+(* the next token ends the specifier run: not a specifier word, and not an identifier (which would be looked up) *)
+Definition ends_spec (rest : list tok) : Prop :=
+  match rest with [] => True | t :: _ => is_spec_tok t = false /\ tk t <> ID end.
+
+Theorem specifier_run_recorded : forall toks fuel c found s rest,
+  forallb is_spec_tok toks = true -> ends_spec rest -> List.length toks < fuel ->
+  p_specifier fuel c found s (toks ++ rest) = Ok (fold_left spec_step toks s, rest).
+Proof.
+  induction toks as [|t toks IH]; intros fuel c found s rest Hall Hend Hf.
+  - cbn [app fold_left]. destruct fuel as [|f]; [cbn in Hf; lia|]. cbn [p_specifier].
+    destruct rest as [|r0 rr]; [reflexivity|]. destruct Hend as (Hs & Hid). unfold is_spec_tok in Hs.
+    destruct (tk r0); try reflexivity; try discriminate; contradiction.
+  - cbn [forallb] in Hall. apply andb_true_iff in Hall. destruct Hall as [Ht Hall].
+    destruct fuel as [|f]; [cbn in Hf; lia|]. cbn [List.length] in Hf.
+    cbn [app p_specifier fold_left]. unfold is_spec_tok in Ht. unfold spec_step at 2.
+    destruct (tk t) eqn:Ek; try discriminate.
+    + apply IH; [exact Hall | exact Hend | lia].
+    + destruct (ueqb (tv t) (cp "const")); apply IH; try assumption; lia.
+    + apply IH; [exact Hall | exact Hend | lia].
+Qed.
+
+(* consequences: the words are recorded in the order written; a const / volatile anywhere in the run sets the flag *)
+Lemma fold_spec_flags : forall toks s,
+  ss_const (fold_left spec_step toks s) = ss_const s || existsb (fun t => match tk t with TYPE_QUALIFIER => ueqb (tv t) (cp "const") | _ => false end) toks.
+Proof.
+  induction toks as [|t toks IH]; intros s; cbn [fold_left existsb]; [rewrite orb_false_r; reflexivity|].
+  rewrite IH. unfold spec_step. destruct (tk t); cbn [ss_const]; try (rewrite orb_false_l; reflexivity);
+    try reflexivity.
+  destruct (ueqb (tv t) (cp "const")); cbn [ss_const]; [rewrite orb_true_r; reflexivity | reflexivity].
+Qed.
+
+Lemma fold_spec_words : forall toks s,
+  ss_spec (fold_left spec_step toks s) = ss_spec s ++ map tv (filter (fun t => match tk t with TYPE_SPECIFIER => true | _ => false end) toks).
+Proof.
+  induction toks as [|t toks IH]; intros s; cbn [fold_left filter map]; [rewrite app_nil_r; reflexivity|].
+  rewrite IH. unfold spec_step. destruct (tk t); cbn [ss_spec map]; try reflexivity.
+  - rewrite <- app_assoc. reflexivity.
+  - destruct (ueqb (tv t) (cp "const")); reflexivity.
+Qed.
